@@ -72,10 +72,15 @@ def variants():
 
     V = {}
 
+    # documented defaults of the pinned version (NOT read from the code under test): an option equal to its default is passed by
+    # omission, so that the default values in the signatures are exercised too (cf. the mutant that changed a default in apmath.multiply)
+    DEFAULTS = dict(add_2sum=dict(fast=False, fix_overflow=False), split_veltkamp=dict(scale=False), mul_dekker=dict(scale=True, fix_overflow=False))
+
     def fpa_variant(name, fname, nargs, clause, module=None, **kw):
+        call_kw = {k: v for k, v in kw.items() if DEFAULTS.get(fname, {}).get(k, object()) != v}
         V[name] = dict(nargs=nargs, clause=clause, opts=kw,
-                       trace=lambda fmt: blocks.trace_fpa(fname, nargs, fmt, module=module, **kw),
-                       eager=lambda fmt, args: getattr(module or fpa, fname)(utils.NumpyContext(blocks.DTYPES[fmt]), *args, **kw))
+                       trace=lambda fmt: blocks.trace_fpa(fname, nargs, fmt, module=module, **call_kw),
+                       eager=lambda fmt, args: getattr(module or fpa, fname)(utils.NumpyContext(blocks.DTYPES[fmt]), *args, **call_kw))
 
     for fast in (False, True):
         for fix in (False, True):
